@@ -312,7 +312,10 @@ func (fc *FnCtx) load(st *State, a *Addr) Val {
 		}
 		return v
 	case AOpaque:
-		return fc.freshVal(st, a.T, "opq")
+		if structOf(a.T) != nil || a.Base == "" {
+			return fc.freshVal(st, a.T, "opq")
+		}
+		fc.assumption("A-BOX: pointers to non-struct values held in parameters or fields are modelled as a separate memory per pointee type; they are assumed not to alias struct fields or slice elements the function also accesses directly")
 	}
 	base, idx := fc.addrBase(a)
 	v := buildVal(a.T, "", func(suffix, sort string, t types.Type) string {
@@ -379,8 +382,10 @@ func (fc *FnCtx) store(st *State, a *Addr, v Val) {
 		fc.noteCellWrite(a.Cell)
 		return
 	case AOpaque:
-		fc.assumption("A-OPAQUE-STORE: store through a pointer the model does not track (" + types.TypeString(a.T, nil) + ")")
-		return
+		if structOf(a.T) != nil || a.Base == "" {
+			fc.assumption("A-OPAQUE-STORE: store through a pointer the model does not track (" + types.TypeString(a.T, nil) + ")")
+			return
+		}
 	}
 	base, idx := fc.addrBase(a)
 	walkVal(fc.storable(v), "", func(suffix, sort, term string, t types.Type) {
